@@ -181,6 +181,31 @@ pub fn run_c15(tier: Tier) -> ! {
         counts.merge(&c);
     }
     nstreams += total;
+    // multi-frame streams (1 ... 300 / 1000 frames with noise, rejected and aborted frames in between)
+    let nmax = tier.pick(300usize, 1000);
+    let items: Vec<(usize, usize)> = (1..=nmax).filter(|n| n % 5 == 1 || (250..=260).contains(n) || *n == nmax).flat_map(|n| (0..3).map(move |v| (n, v))).collect();
+    let parts = par_chunks(items.len() as u64, 2, |a, b| {
+        let mut t = Tally::new();
+        let mut c = Counts::default();
+        let mut out = vec![];
+        for i in a..b {
+            let (n, variant) = items[i as usize];
+            let (s, _) = crate::e2::many_frames_stream(n, variant);
+            let key = format!("frames={},variant={}", n, variant);
+            let case = J::obj().set("engine", "e3").set("check", "C15").set("stream", hex(&s));
+            c15_stream(&s, &key, case, s.len(), &mut out, &mut c);
+            c.inc("multi-frame streams");
+            for v in out.drain(..) {
+                t.add(v);
+            }
+        }
+        (t, c)
+    });
+    for (t, c) in parts {
+        tally.merge(t);
+        counts.merge(&c);
+    }
+    nstreams += items.len() as u64;
     counts.require(&["streams with a delivered frame", "streams with OutOfMemory under ArrayBuf<2>", "streams with two or more results"]);
     let evals = counts.get("front-end runs compared with the push decoder");
     let cov = J::obj()
